@@ -126,6 +126,23 @@ def geometry_worker(case):
     return res
 
 
+
+def cells_cover(ips, curve):
+    """The load is a sum over every cell of the domain mesh exactly once: the cells listed in the second return value
+    of linform are pairwise different and their areas add up to the area of the domain (exact rationals of the doubles)."""
+    cells = [e for e, _ in ips]
+    if len(set(id(e) for e in cells)) != len(cells):
+        return False, 'a cell is integrated twice'
+    area = Fraction(0)
+    for e in cells:
+        x0, y0, x1, y1 = (Fraction(float(v)) for v in (e.vertices[0].x, e.vertices[0].y, e.vertices[2].x, e.vertices[2].y))
+        area += abs((x1 - x0) * (y1 - y0))
+    want = {'UnitSquare': Fraction(1), 'LShape': Fraction(3), 'PiSquare': Fraction(float(np.pi))**2}[curve]
+    if abs(area - want) > Fraction(1, 10**9) * want:
+        return False, 'the integrated cells cover area %.12g of the domain (area %.12g): a cell is skipped' % (float(area), float(want))
+    return True, ''
+
+
 # -- K, U -------------------------------------------------------------------------------------------------
 def kernel_run(eng, curve, seg, quad_int):
     IP, IM = load()
@@ -141,12 +158,15 @@ def kernel_run(eng, curve, seg, quad_int):
 
     def L(t0, t1):
         return SR.lift(op.linform(slsym.Elem(t0, t1, c, d, piece))[0])
+    cover, why = cells_cover(op.linform(slsym.Elem(a, cc, c, d, piece))[1], curve)
+    if not cover:
+        return True, True, why
     whole = L(a, cc)
     ok1, _ = eng.prove_identity(whole, L(a, b) + L(b, cc), 'time-additive', rtol=1e-12)
     ok2 = True
     if a > 0:
         ok2, _ = eng.prove_identity(L(a, b), L(SR.const(0), b) - L(SR.const(0), a), 'from-zero', rtol=1e-12)
-    return ok1, ok2
+    return ok1, ok2, ''
 
 
 def linear_run(eng, curve, seg, quad_int):
@@ -187,7 +207,9 @@ def kernel_worker(case):
             else:
                 res['nontrivial'] += 1
                 if kind == 'kernel':
-                    if not pr.value[0]:
+                    if pr.value[2]:
+                        bad = 'cover: ' + pr.value[2]
+                    elif not pr.value[0]:
                         bad = 'load is not additive when the time interval is split'
                     elif not pr.value[1]:
                         bad = 'linform([a,b]) differs from linform([0,b]) - linform([0,a]) for a > 0'
@@ -231,6 +253,8 @@ def replay(rp):
             op = IP.InitialOperator(slsym.FakeMesh(gamma), u, initial_mesh=getattr(IM, DOMAINS[curve]), quad_int=4,
                                     quad_eval=3)
             L = lambda t0, t1: op.linform(slsym.Elem(t0, t1, c, d, piece))[0]
+            if not cells_cover(op.linform(slsym.Elem(a, cc, c, d, piece))[1], curve)[0]:
+                return True
             w = L(a, cc)
             if abs(w - (L(a, b) + L(b, cc))) > 1e-9 * abs(w):
                 return True
